@@ -42,6 +42,10 @@ type Real struct {
 	// the latest vacuum.
 	Vacuumed     map[int]bool
 	LastVacuumed []int
+	// ColdCommits: every other observation queries the commits through a freshly opened
+	// handle (no in-memory caches: the persisted snapshot files are what is read).
+	ColdCommits bool
+	nobs        int
 }
 
 func BranchName(b int) string {
@@ -362,6 +366,14 @@ func (r *Real) Observe(commits bool) (*StepObs, error) {
 		obs.Branches = append(obs.Branches, bo)
 	}
 	if commits {
+		r.nobs++
+		if r.ColdCommits && r.nobs%2 == 0 {
+			if l2, err := r.Reopen(); err == nil {
+				warm := r.L
+				r.L = l2
+				defer func() { r.L = warm }()
+			}
+		}
 		for c := 1; c <= len(r.Commits); c++ {
 			co := CommitObs{ID: c, Status: "ok"}
 			scan, err := r.scan(r.Rev(c))
